@@ -128,6 +128,10 @@ func TestC02(t *testing.T) {
 			classes = append(classes, "non-identity-index")
 		}
 		nontrivial := (clause.Leaves() >= 2 || negNull) && d.NonIdentity() && len(keep) > 0 && len(keep) < in.N()
+		// the receiver is as it was (its positional and its by-name observers)
+		if again, err := hx.Observe(d.QF); err != nil || hx.Diff(in, again) != "" {
+			t.Fatalf("the operation changed its receiver: %v %s\n%s", err, hx.Diff(in, again), desc())
+		}
 		evC02.Case(nontrivial, desc, classes...)
 	})
 }
